@@ -44,6 +44,8 @@ BODIES = {
     # parameters that do not bind (-32602 with the validator's description as data), alone and inside a batch
     'nobind': json.dumps(call('ok', [1, 2, 3])).encode(), 'nobind-named': json.dumps(call('ok', {'zz': 1})).encode(),
     'mixed-nobind': json.dumps([call('ok', [1], 1), call('ok', {'zz': 1}, 2), call('ok', [1, 2], None)]).encode(),
+    # a result that is JSON-encodable but not in JSON normal form (keys of several types)
+    'rich': json.dumps(call('rich')).encode(),
     'batch': json.dumps([call('ok', [1], 1), call('ok', [2], 2)]).encode(),
     'mixed': json.dumps([call('ok', [1], 1), call('ok', [2], None), call('nope', None, 'x'), call('perr', None, 3)]).encode(),
     'notif': json.dumps(call('ok', [3], None)).encode(), 'notif-fail': json.dumps(call('boom', None, None)).encode(),
@@ -72,7 +74,11 @@ def register(d, log, is_async):
     def boom():
         log.append(('boom',))
         raise ValueError('S3CR3T')
-    for f in (ok, perr, boom):
+
+    def rich():
+        log.append(('rich',))
+        return {1: 'one', 'total': 2, None: 3}
+    for f in (ok, perr, boom, rich):
         if is_async:
             def mk(f):
                 async def co(*a, **kw):
@@ -137,6 +143,11 @@ def gen_cases(ctx):
         for mi, ct in enumerate(MEDIA):
             for bname in ('call', 'mixed', 'notif', 'parse', 'perr'):
                 yield dict(status='default', path='/api', media=mi, body=bname, endpoint='', dct=dct)
+    # other request headers (Accept and friends) play no part: the reply is the same as without them
+    for accept in ('application/json-rpc', 'text/plain', 'text/html,application/xhtml+xml;q=0.9', '*/*', 'application/json', 'application/xml;q=0.9, */*;q=0.1'):
+        for mi in (0, 1, 5):
+            for bname in ('call', 'notif', 'perr', 'mixed', 'parse'):
+                yield dict(status='default', path='/api', media=mi, body=bname, endpoint='', accept=accept)
     for sname in STATUS:
         for path in PATHS:
             for mi, ct in enumerate(MEDIA):
@@ -218,7 +229,7 @@ def run_one(case, rec):
         if case.get('endpoint'):
             # the main endpoint serves nothing: a request routed to the wrong dispatcher shows up as 'method not found'
             pass
-        rep = integ.post(body, ct)
+        rep = integ.post(body, ct, extra_headers=({'Accept': case['accept'], 'User-Agent': 'c18/1', 'X-Requested-With': 'x'} if case.get('accept') else None))
         rec.transitions += 1
         c = dict(case, integration=kind, content_type=ct)
         cls = 'documented type' + (' with parameters' if ct and ';' in ct else '') + (' in upper case' if ct and ct != ct.lower() else '')
@@ -261,7 +272,8 @@ def run_one(case, rec):
             except Exception:   # noqa
                 got_doc = '<not JSON: %r>' % rep.body[:100]
             if not typed_eq(got_doc, want_doc):
-                rec.violation('C18:%s:reply body differs from the dispatcher\'s response document' % kind, c, expected=want_doc, observed=got_doc)
+                rec.violation('C18:%s:reply body differs from the dispatcher\'s response document%s' % (
+                    kind, ' (result with keys of several types)' if case['body'] == 'rich' else ''), c, expected=want_doc, observed=got_doc)
             elif rep.content_type != pjrpc.common.DEFAULT_CONTENT_TYPE:
                 rec.violation('C18:%s:reply content type is not the JSON type' % kind, c, expected=pjrpc.common.DEFAULT_CONTENT_TYPE, observed=rep.content_type)
             elif rep.status != want_status:
@@ -295,7 +307,7 @@ def replay(doc):
     from mc.core import Recorder, jdump
     rec = Recorder()
     c = doc['case']
-    run_case({k: c[k] for k in ('part', 'seq', 'status', 'path', 'media', 'body', 'endpoint', 'endpoint_mode', 'target', 'dct') if k in c}, rec)
+    run_case({k: c[k] for k in ('part', 'seq', 'status', 'path', 'media', 'body', 'endpoint', 'endpoint_mode', 'target', 'dct', 'accept') if k in c}, rec)
     for v in rec.violations[:6]:
         print('VIOLATION-REPLAY signature=%s\n  expected=%s\n  observed=%s' % (v['signature'], jdump(v['expected'])[:300], jdump(v['observed'])[:300]))
     print('replayed: %d violation(s)' % len(rec.violations))
